@@ -14,6 +14,10 @@
 #include <opm/input/eclipse/Schedule/Group/GConSump.hpp>
 #include <opm/input/eclipse/Schedule/Group/GuideRateConfig.hpp>
 #include <opm/input/eclipse/Schedule/MSW/WellSegments.hpp>
+#include <opm/input/eclipse/Schedule/MSW/SICD.hpp>
+#include <opm/input/eclipse/Schedule/MSW/AICD.hpp>
+#include <opm/input/eclipse/Schedule/MSW/Valve.hpp>
+#include <opm/input/eclipse/Schedule/MSW/Segment.hpp>
 #include <opm/input/eclipse/Schedule/Network/ExtNetwork.hpp>
 #include <opm/input/eclipse/Schedule/Schedule.hpp>
 #include <opm/input/eclipse/Schedule/ScheduleState.hpp>
@@ -136,7 +140,32 @@ inline void rd_well(const Opm::Well& w, const Opm::SummaryState& st, JW& out) {
                 .kv_i("type", (int)s.segmentType());
             out.key("inlets").arr();
             for (int i : s.inletSegments()) out.i(i);
-            out.end_arr().end_obj();
+            out.end_arr();
+            // the device of the segment (WSEGVALV / WSEGSICD / WSEGAICD), every public getter
+            if (s.isValve()) {
+                const auto& v = s.valve();
+                out.key("valve").obj().kv_d("Cv", v.conFlowCoefficient()).kv_d("area", v.conCrossAreaValue()).kv_d("maxArea", v.conMaxCrossArea())
+                    .kv_d("pipeDiameter", v.pipeDiameter()).kv_d("pipeRoughness", v.pipeRoughness()).kv_d("pipeArea", v.pipeCrossArea())
+                    .kv_d("pipeAddLength", v.pipeAdditionalLength()).kv_i("status", (int)v.status()).end_obj();
+            }
+            auto icd = [&](const Opm::SICD& d) {
+                out.kv_d("strength", d.strength()).kv_d("length", d.length()).kv_d("densityCalibration", d.densityCalibration())
+                    .kv_d("viscosityCalibration", d.viscosityCalibration()).kv_d("criticalValue", d.criticalValue())
+                    .kv_d("widthTransitionRegion", d.widthTransitionRegion()).kv_d("maxViscosityRatio", d.maxViscosityRatio())
+                    .kv_i("methodFlowScaling", d.methodFlowScaling()).kv_i("status", (int)d.status()).kv_d("scalingFactor", d.scalingFactor());
+                if (d.maxAbsoluteRate().has_value()) out.kv_d("maxAbsoluteRate", *d.maxAbsoluteRate()); else out.key("maxAbsoluteRate").null();
+            };
+            if (s.isSpiralICD()) { out.key("sicd").obj(); icd(s.spiralICD()); out.end_obj(); }
+            if (s.isAICD()) {
+                const auto& a = s.autoICD();
+                out.key("aicd").obj(); icd(a);
+                out.kv_d("flowRateExponent", a.flowRateExponent()).kv_d("viscExponent", a.viscExponent())
+                    .kv_d("oilDensityExponent", a.oilDensityExponent()).kv_d("waterDensityExponent", a.waterDensityExponent())
+                    .kv_d("gasDensityExponent", a.gasDensityExponent()).kv_d("oilViscExponent", a.oilViscExponent())
+                    .kv_d("waterViscExponent", a.waterViscExponent()).kv_d("gasViscExponent", a.gasViscExponent());
+                out.end_obj();
+            }
+            out.end_obj();
         }
     }
     out.end_arr();
